@@ -1,6 +1,111 @@
 import TabulaModel.Util
-namespace Tabula.C06H
+import TabulaModel.Model.CSParser
+/-!
+Line protocol of property C06.
 
-def handle (_op : String) (_args : List String) : String := "bad-op"
+* `c06.obj <hex>` — `core.NewParser(r).ParseObject()` called until it fails:
+  the objects separated by spaces, then `eof` (io.EOF) or `err`.
+* `c06.cs <hex>`  — `contentstream.NewParser(b).Parse()`: `ok` followed by one
+  `<hex operator>(<operand>,<operand>,…)` per operation, or `err`.
+* `c06.lex <hex>` — `core.NewLexer(r).NextToken()` until EOF or an error: one
+  `<code><hex value>` per token (`C` comment, `K` keyword, `I` integer, `F` real,
+  `S` string, `H` hex string digits, `N` name, `[` `]` `D` `d` delimiters,
+  `R`), then `eof` or `err`.
+
+Objects are s-expressions with hex atoms:
+`n | t | f | i<decimal> | r<decimal> | s<hex> | /<hex> | [a,b,…] |
+<key:value,…>` (keys in byte order) `| R<num>.<gen>`.
+-/
+namespace Tabula.C06H
+open Tabula Tabula.Pdf
+
+def toStr (b : Bytes) : Str := b.map (·.toNat)
+def hexS (s : Str) : String := hex (s.map UInt8.ofNat)
+
+/-- canonical decimal of a normalised real -/
+def realText (neg : Bool) (mant scale : Nat) : String :=
+  let ds := (toString mant).toList
+  let ds := List.replicate (scale + 1 - ds.length) '0' ++ ds
+  let ip := ds.take (ds.length - scale)
+  let fp := ds.drop (ds.length - scale)
+  (if neg then "-" else "") ++ String.ofList ip ++ (if fp.isEmpty then "" else "." ++ String.ofList fp)
+
+def ltStr : Str → Str → Bool
+  | [], [] => false
+  | [], _ :: _ => true
+  | _ :: _, [] => false
+  | a :: r, b :: s => if a < b then true else if b < a then false else ltStr r s
+
+def insertKV (e : Str × String) : List (Str × String) → List (Str × String)
+  | [] => [e]
+  | x :: r => if ltStr e.1 x.1 then e :: x :: r else x :: insertKV e r
+
+def sortKV (l : List (Str × String)) : List (Str × String) := l.foldr insertKV []
+
+mutual
+def sexpr : Obj → String
+  | .null => "n"
+  | .bool true => "t"
+  | .bool false => "f"
+  | .int i => "i" ++ toString i
+  | .real neg m s => "r" ++ realText neg m s
+  | .str s => "s" ++ hexS s
+  | .name s => "/" ++ hexS s
+  | .arr xs => "[" ++ ",".intercalate (sexprList xs) ++ "]"
+  | .dict kv => "<" ++ ",".intercalate ((sortKV (sexprKV kv)).map fun e => hexS e.1 ++ ":" ++ e.2) ++ ">"
+  | .ref n g => "R" ++ toString n ++ "." ++ toString g
+def sexprList : List Obj → List String
+  | [] => []
+  | x :: xs => sexpr x :: sexprList xs
+def sexprKV : List (Str × Obj) → List (Str × String)
+  | [] => []
+  | (k, v) :: r => (k, sexpr v) :: sexprKV r
+end
+
+def objLine (inp : Str) : String :=
+  let r := coreParseAll inp
+  let e := match r.2 with | .eof => "eof" | .err => "err"
+  " ".intercalate (r.1.map sexpr ++ [e])
+
+def csLine (inp : Str) : String :=
+  match CS.csParse inp with
+  | none => "err"
+  | some ops =>
+    " ".intercalate ("ok" :: ops.map fun o => hexS o.op ++ "(" ++ ",".intercalate (o.operands.map sexpr) ++ ")")
+
+def tokText : Token → String
+  | .eof => "E-"
+  | .comment v => "C" ++ hexS v
+  | .keyword v => "K" ++ hexS v
+  | .integer v => "I" ++ hexS v
+  | .real v => "F" ++ hexS v
+  | .str v => "S" ++ hexS v
+  | .hexstr v => "H" ++ hexS v
+  | .name v => "N" ++ hexS v
+  | .arrStart => "[5b"
+  | .arrEnd => "]5d"
+  | .dictStart => "D3c3c"
+  | .dictEnd => "d3e3e"
+  | .ref => "R52"
+
+def lexLoop : Nat → Str → List String → List String
+  | 0, _, acc => acc ++ ["noprogress"]
+  | n + 1, inp, acc =>
+    match nextToken inp with
+    | none => acc ++ ["err"]
+    | some (.eof, _) => acc ++ ["eof"]
+    | some (t, r) => lexLoop n r (acc ++ [tokText t])
+
+def lexLine (inp : Str) : String := " ".intercalate (lexLoop (inp.length + 2) inp [])
+
+def handle (op : String) (args : List String) : String :=
+  match op, args with
+  | "c06.obj", [h] => match unhex h with
+    | some b => objLine (toStr b) | none => "bad-op"
+  | "c06.cs", [h] => match unhex h with
+    | some b => csLine (toStr b) | none => "bad-op"
+  | "c06.lex", [h] => match unhex h with
+    | some b => lexLine (toStr b) | none => "bad-op"
+  | _, _ => "bad-op"
 
 end Tabula.C06H
